@@ -286,6 +286,64 @@ def _cwork(item):
     cid, b = item
     return cid, impl_outcome(b)
 
+
+def _api_level():
+    """worker initialiser for the PSDImage-level correspondence: payload registries emptied EXCEPT the two section-divider
+    keys, which PSDImage._init reads to build the layer tree (twin of Psd/ResaveApi.v api_records)"""
+    _quiet = __import__("logging")
+    import warnings
+
+    warnings.simplefilter("ignore")
+    _quiet.disable(_quiet.CRITICAL)
+    from psd_tools.constants import Tag
+    from psd_tools.psd import image_resources, tagged_blocks
+
+    keep = {k: v for k, v in tagged_blocks.TYPES.items() if k in (Tag.SECTION_DIVIDER_SETTING, Tag.NESTED_SECTION_DIVIDER_SETTING)}
+    tagged_blocks.TYPES.clear()
+    tagged_blocks.TYPES.update(keep)
+    image_resources.TYPES.clear()
+
+
+def api_impl_outcome(b):
+    """twin of ResaveApi.api_outcome: PSD.read, PSDImage(...), save() without edits"""
+    from psd_tools import PSDImage
+    from psd_tools.psd import PSD
+
+    from .core import exc_code, h63_list
+
+    signal.signal(signal.SIGALRM, _alarm)
+    signal.alarm(40)
+    try:
+        try:
+            d = PSD.read(io.BytesIO(b))
+        except _Hang:
+            return [98]
+        except Exception as e:
+            return [exc_code(e)]
+        tb = d.layer_and_mask_information.tagged_blocks
+        if tb is not None and any(getattr(k, "value", k) in (b"Lr16", b"Lr32") for k in tb.keys()):
+            return [77]
+        try:
+            p = PSDImage(d)
+        except _Hang:
+            return [98]
+        except Exception as e:
+            return [exc_code(e)]
+        try:
+            f = io.BytesIO()
+            p.save(f)
+            s = f.getvalue()
+        except Exception as e:
+            return [0, exc_code(e)]
+        return [0, 0, len(s), h63_list(0, list(s))]
+    finally:
+        signal.alarm(0)
+
+
+def _awork(item):
+    cid, b = item
+    return cid, api_impl_outcome(b)
+
 # ---- known findings: each classifier is the exact class of structural differences the defect produces
 def _paths(fl):
     obs = fl.get("observed")
@@ -370,6 +428,17 @@ def coq_witnesses():
     lsct = b"8BIMlsct" + _I(8) + bytes([0, 0, 0, 1, 0, 0, 0, 7])
     body6 = struct.pack(">h", 1) + _rec([], _I(0) + _I(0) + _I(0) + lsct)
     w["w6"] = _HDR + _I(0) + _I(0) + _I(4 + len(body6) + 2) + _I(len(body6) + 2) + body6 + b"\0\0" + b"\0\0" + b"\0" * 20
+    # PSDImage level (Properties/C02.v wa1..wa3): nested groups / a folder record without bounding record / an unclosed group
+    lsct_ = lambda kind: b"8BIMlsct" + _I(4) + _I(kind)
+
+    def doc(blocks_per_record):
+        body = struct.pack(">h", len(blocks_per_record)) + b"".join(_rec([], _I(0) + _I(0) + _I(0) + x) for x in blocks_per_record)
+        body += b"\0" * (-len(body) % 4)
+        return _HDR + _I(0) + _I(0) + _I(4 + len(body) + 4) + _I(len(body)) + body + _I(0) + b"\0\0\0"
+
+    w["wa1"] = doc([lsct_(3), lsct_(3), b"", lsct_(1), lsct_(2)])
+    w["wa2"] = doc([b"", lsct_(1)])
+    w["wa3"] = doc([lsct_(3), b""])
     w["w_ovf"] = _HDR[:5] + b"\x02" + _HDR[6:] + _I(0) + _I(0) + struct.pack(">Q", 10) + b"\xff" * 8 + b"\0\0" + b"\0\0"
     w["ex_file"] = _HDR + _I(0) + _I(len(res)) + res + _I(len(lami)) + lami + b"\0\1" + bytes([5, 5])
     return w
@@ -529,7 +598,7 @@ def tiny_seeds(ck):
     from . import format_common as F
 
     out = [("tiny:" + k, b) for k, b in sorted(coq_witnesses().items())]
-    want = 24 if ck.tier == "thorough" else 6
+    want = 16 if ck.tier == "thorough" else 6
     tries = 0
     while len(out) < want + 6 and tries < 4000:
         tries += 1
@@ -558,9 +627,9 @@ def run():
                "truncation offset of small files, structural boundaries, bit flips in header/length/count fields, max-value/zero substitution in "
                "aligned 2/4/8-byte fields, random substitutions, splices (generator shared with C06); oracle: every mutant the reader accepts "
                "(non-trivial = accepted mutant that differs from its seed); correspondence: accepted AND rejected mutants - all of them for the hand-made files (thorough: for every seed up "
-               "to 3000 bytes), a sample of 600 per small seed and of 30 / 250 per larger fixture, model reader/writer (vm_compute) vs implementation with payload registries emptied")
+               "to 3000 bytes), a sample of 600 per small seed and of 30 / 120 per larger fixture, model reader/writer (vm_compute) vs implementation with payload registries emptied")
     # ---- Coq: theorems
-    if ck.coq_build(["theories/Psd/ResaveProofs.v", "theories/Psd/ResaveWrite.v", "theories/Properties/C02.v"]):
+    if ck.coq_build(["theories/Psd/ResaveProofs.v", "theories/Psd/ResaveWrite.v", "theories/Psd/ResaveApiProofs.v", "theories/Properties/C02.v"]):
         ck.collect_theorems("C02.v")
         wit = coq_witnesses()
         body = "From Coq Require Import List.\nImport ListNotations.\n" + "".join(
@@ -581,11 +650,23 @@ def run():
         inputs.append((len(inputs), b))
         meta[len(inputs) - 1] = (name, "seed")
         seen = set()
+        muts = []
         for desc, m in itertools.chain(c06.gen_mutants(ck, name, b), tb_mutants(b),
                                        leaf_mutants(b, b[4:6] == b"\x00\x02") if name in richnames else ()):
             if m in seen or m == b:
                 continue
             seen.add(m)
+            muts.append((desc, m))
+        # the mutant families of the larger fixtures are sampled (thorough: at most MAXF per file; the small-file families stay
+        # exhaustive): structure-aware mutants (tblen) are all kept, the rest is drawn evenly over the generator's order
+        MAXF = 4000
+        if len(b) > 3000 and len(muts) > MAXF:
+            keep = [x for x in muts if x[0].startswith("tblen")]
+            rest = [x for x in muts if not x[0].startswith("tblen")]
+            k = max(0, MAXF - len(keep))
+            ck.count("mutants-sampled-out", len(rest) - min(k, len(rest)))
+            muts = keep + (ck.rng.sample(rest, k) if k < len(rest) else rest)
+        for desc, m in muts:
             inputs.append((len(inputs), m))
             meta[len(inputs) - 1] = (name, desc)
     # ---- oracle stream (implementation only, payload classes active)
@@ -614,12 +695,17 @@ def run():
     for name, b in seedlist:
         cids = by_seed[name]
         n = len(b)
-        if n <= 200 or (thorough and n <= 3000):
+        if name in richnames and thorough:
+            # byte-level mutants inside payloads are opaque to the container model: a sample of them, everything else
+            leafm = [c for c in cids[1:] if meta[c][1].startswith(("byte@", "zero8@"))]
+            other = [c for c in cids[1:] if not meta[c][1].startswith(("byte@", "zero8@"))]
+            take = [cids[0]] + other + ck.rng.sample(leafm, min(len(leafm), 1500))
+        elif n <= 200 or (thorough and n <= 3000):
             take = cids
         elif n <= 3000:
             take = [cids[0]] + ck.rng.sample(cids[1:], min(len(cids) - 1, 600))
         elif n <= 40000:
-            take = [cids[0]] + ck.rng.sample(cids[1:], min(len(cids) - 1, 250 if thorough else 30))
+            take = [cids[0]] + ck.rng.sample(cids[1:], min(len(cids) - 1, 120 if thorough else 30))
         else:
             take = []
         sel.extend(take)
@@ -659,7 +745,35 @@ def run():
         ck.notes.append("model/implementation differ on mutant %s of %s (%d bytes): implementation %r" % (meta[cid][1], meta[cid][0], len(cases[i][0]), cases[i][1]))
         json.dump({"bytes": cases[i][0].hex(), "impl": cases[i][1], "seed": meta[cid][0], "mutation": meta[cid][1]},
                   open(os.path.join(ck.dir, "corr-mismatch-%d.json" % i), "w"))
+    # ---- PSDImage level: the model's view of open + save without edits (Psd/ResaveApi.v, tree model of C08)
+    asel = []
+    for name, b in seedlist:
+        cids = by_seed[name]
+        if len(b) > 3000:
+            continue
+        if name in ("tiny:wa1", "tiny:wa2", "tiny:wa3", "tiny:w6"):
+            k = len(cids) if thorough else 500
+        else:
+            k = 400 if thorough else 60
+        asel.extend([cids[0]] + ck.rng.sample(cids[1:], min(len(cids) - 1, k)))
+    a_inputs = [inputs[c] for c in asel]
+    with multiprocessing.get_context("fork").Pool(14, initializer=_api_level) as pool:
+        ares = pool.map(_awork, a_inputs, chunksize=32)
+    acases = []
+    for (cid, out), (_, b) in zip(ares, a_inputs):
+        acases.append((b, out))
+        ck.count("psdimage:" + ("opened+saved" if len(out) == 4 else "not-modelled" if out == [77] else "raised:%d" % out[-1]))
+    abad = ck.correspond("psdimage_open_save", "api_outcome", IMPORTS + ["Psd.ResaveApi"], acases, F.coq_bytes, chunk=60, timeout=1800)
+    for i in abad[:8]:
+        cid = asel[i]
+        ck.notes.append("PSDImage level: model/implementation differ on mutant %s of %s: implementation %r" % (meta[cid][1], meta[cid][0], acases[i][1]))
+        json.dump({"bytes": acases[i][0].hex(), "impl": acases[i][1], "seed": meta[cid][0], "mutation": meta[cid][1]},
+                  open(os.path.join(ck.dir, "api-mismatch-%d.json" % i), "w"))
     ck.assumptions += [
+        "PSDImage level: save() without edits is PSD.write of the structure read (_update_record returns while _updated_layers is False); the "
+        "model (Psd/ResaveApi.v) decides the constructor's outcome from the section-divider payloads of the records and is compared with "
+        "PSDImage(PSD.read(b)) + save() run with the payload registries emptied except the two section-divider keys; documents whose layers "
+        "live in a Lr16/Lr32 block are outside the model (code 77 on both sides); layer classes are C08's",
         "payloads of tagged blocks and image resources are opaque bytes in the model; the correspondence runs the implementation with its payload-class "
         "registries (tagged_blocks.TYPES, image_resources.TYPES) emptied, the oracle stream runs it unchanged",
         "charset: codec_ok (decode undone by encode) - true of mac_roman, checked below on all 256 byte values; names are compared as their encoded bytes",
